@@ -66,7 +66,8 @@ def singles(d, tier="quick"):
     add("uniqueItems", [True, False])
     add("properties", [{"a": s} for s in L] + [{"a": s1, "b": s2} for s1 in L3 for s2 in L3] + [{}])
     add("patternProperties", [{"a": s} for s in L] + [{"^a": s1, "b": s2} for s1 in L3 for s2 in L3] +
-        [{"(b)c": {}, "(a)\\1": {}}, {"a$": {"type": "integer"}, "^a": {"minimum": 1}}])
+        [{"(b)c": {}, "(a)\\1": {}}, {"a$": {"type": "integer"}, "^a": {"minimum": 1}},
+         {"b": {}}, {"b": {"type": "integer"}}, {"a$": {}}, {"b$": {"type": "string"}}])
     add("additionalProperties", [s for s in L if isinstance(s, dict)] + [True, False])
     add("items", [s for s in L if isinstance(s, dict) or d >= 6] + [[s] for s in L3] +
         [[s1, s2] for s1 in L3 for s2 in L3] + [[]] +
@@ -113,7 +114,7 @@ def sibling_groups(d, tier="quick"):
     # properties x patternProperties x additionalProperties, in the six key orders
     props = [{"a": s} for s in L2] + [{"a": {}, "b": {"minimum": 1}}]
     pats = [{"a": s} for s in L2] + [{"^b": {"type": "integer"}}, {"a$": {}, "^a": {"type": "string"}},
-                                      {"(b)c": {}, "(a)\\1": {}}]
+                                      {"(b)c": {}, "(a)\\1": {}}, {"b": {}}, {"b$": {"type": "integer"}}]
     for p, pp, ap in itertools.product(props, pats, fl):
         trip = [("properties", p), ("patternProperties", pp), ("additionalProperties", ap)]
         for perm in itertools.permutations(trip):
